@@ -62,6 +62,7 @@ class Ctx:
             self.solver.add(p)
         self.max_paths = max_paths
         self.budget_s = budget_s
+        self.allow_float = False     # float()/round()/format() of a symbol: only where the value is merely PRINTED (drawing coordinates)
         # statistics
         self.nq = 0          # solver check() calls
         self.solver_s = 0.0  # time inside check()
@@ -562,6 +563,11 @@ class Lin:
 
     # -- witnesses (printing only; no branch may depend on these)
     def __float__(self):
+        if self.is_const():
+            return float(self.k)
+        if not self.ctx.allow_float:
+            # e.g. math.isclose(cost_a, cost_b): the code under test would branch on one model's numbers without the path knowing
+            raise OutsideEncoding("float() of a symbolic value (the code converts a symbolic quantity to a float)")
         return float(self.ctx.current_value(self))
 
     def __round__(self, ndigits=None):
@@ -575,6 +581,8 @@ class Lin:
     __int__ = __index__
 
     def __format__(self, spec):
+        if not spec and not (self.is_const() or self.ctx.allow_float):
+            return repr(self)          # f"{cost}" in a message: show the affine form
         return format(float(self), spec)
 
     def __repr__(self):
